@@ -92,7 +92,7 @@ func (f lyFamily) size() int64 {
 
 // a layer case: the shorthand value and, per long-hand, the text of each layer's component.
 type lyCase struct {
-	n      int
+	n, rot int
 	value  string
 	layers []string            // text of each layer
 	comp   map[string][]string // long-hand -> per-layer component text (never empty: initial value spelled out)
@@ -143,7 +143,7 @@ func lyBuild(f lyFamily, idx int64, images [3]string) lyCase {
 
 func lyMake(pres []int, rot int, withColor bool, images [3]string) lyCase {
 	n := len(pres)
-	lc := lyCase{n: n, comp: map[string][]string{}, given: map[string][]bool{}}
+	lc := lyCase{n: n, rot: rot, comp: map[string][]string{}, given: map[string][]bool{}}
 	set := func(lh, v string, k int) {
 		given := v != ""
 		if !given {
@@ -193,10 +193,6 @@ func lyMake(pres []int, rot int, withColor bool, images [3]string) lyCase {
 		set("background-attachment", at, k)
 		set("background-origin", origin, k)
 		set("background-clip", clip, k)
-		posSize := po
-		if sz != "" {
-			posSize = po + " / " + sz
-		}
 		parts["image"], parts["position"], parts["size"], parts["repeat"], parts["attachment"], parts["box"] = im, po, sz, rp, at, bx
 		col := ""
 		if withColor && k == n-1 {
@@ -204,27 +200,8 @@ func lyMake(pres []int, rot int, withColor bool, images [3]string) lyCase {
 			lc.color = col
 		}
 		parts["color"] = col
-		var comps []string
-		for _, x := range []string{im, posSize, rp, at, bx, col} {
-			if x != "" {
-				comps = append(comps, x)
-			}
-		}
-		// order of the components inside the layer: as listed, reversed, rotated by two
-		m := len(comps)
-		ord := make([]string, m)
-		for i := range comps {
-			switch vi {
-			case 0:
-				ord[i] = comps[i]
-			case 1:
-				ord[i] = comps[m-1-i]
-			default:
-				ord[i] = comps[(i+2)%m]
-			}
-		}
-		lc.layers = append(lc.layers, strings.Join(ord, " "))
 		lc.parts = append(lc.parts, parts)
+		lc.layers = append(lc.layers, lc.layerText(k, "", ""))
 	}
 	lc.value = strings.Join(lc.layers, ", ")
 	lc.feats = []string{"shorthand:background", fmt.Sprintf("bg-layers:%d", n)}
@@ -238,6 +215,45 @@ func lyMake(pres []int, rot int, withColor bool, images [3]string) lyCase {
 	sort.Strings(u)
 	lc.feats = append(lc.feats, u...)
 	return lc
+}
+
+// layerText writes layer k; the component `sub` ("" = none; "position-size" = position and size
+// together) is replaced by `with`.
+func (lc lyCase) layerText(k int, sub, with string) string {
+	p := lc.parts[k]
+	get := func(name string) string {
+		if name == sub && p[name] != "" {
+			return with
+		}
+		return p[name]
+	}
+	posSize := get("position")
+	if p["size"] != "" {
+		posSize += " / " + get("size")
+	}
+	if sub == "position-size" && p["position"] != "" {
+		posSize = with
+	}
+	var comps []string
+	for _, x := range []string{get("image"), posSize, get("repeat"), get("attachment"), get("box"), get("color")} {
+		if x != "" {
+			comps = append(comps, x)
+		}
+	}
+	// order of the components inside the layer: as listed, reversed, rotated by two
+	m := len(comps)
+	ord := make([]string, m)
+	for i := range comps {
+		switch (k + lc.rot) % 3 {
+		case 0:
+			ord[i] = comps[i]
+		case 1:
+			ord[i] = comps[m-1-i]
+		default:
+			ord[i] = comps[(i+2)%m]
+		}
+	}
+	return strings.Join(ord, " ")
 }
 
 // longhandDecls spells the case with long-hands only (reference spelling for part c).
